@@ -3,6 +3,7 @@ package wsjson
 import (
 	"context"
 	"encoding/json"
+	"math"
 
 	"nhooyr.io/websocket"
 )
@@ -10,10 +11,28 @@ import (
 var vDocs = []string{`"ab"`, `{"k":[1,2,{"x":null}]}`, `12345`, `[true,false,"é"]`}
 var vBadDocs = []string{`{"k":`, `nope`, ``, `[1,2`, `{"a":1} trailing`, `{"a":1}{"a":2}`, `1 2`, `[1]]`}
 
-// C19.write: wsjson.Write sends exactly one text message whose payload is the JSON encoding of the value.
+// C19.write: wsjson.Write sends exactly one text message whose payload is the JSON encoding of the value. A value that
+// has no JSON encoding (NaN, a RawMessage that is not JSON) makes Write fail and puts nothing on the wire: the next
+// value written is the next message the peer gets.
 func verifC19_write() {
 	client := websocket.VerifParam("client", 1) == 1
 	c, out := websocket.VerifScriptedConn(client, nil, 0)
+	if k := websocket.VerifChoose("unencodable", 4); k > 0 {
+		var bad interface{}
+		switch k {
+		case 1:
+			bad = math.NaN()
+		case 2:
+			bad = json.RawMessage(`{"k":`)
+		case 3:
+			bad = json.RawMessage(``)
+		}
+		err := Write(context.Background(), c, bad)
+		websocket.VerifReach("C19.write.unencodable")
+		websocket.VerifAssert(err != nil, "C19.write.unencodable-is-error")
+		_, payloads, ok := websocket.VerifDataMessages(out())
+		websocket.VerifAssert(ok && len(payloads) == 0 && len(out()) == 0, "C19.write.failed-write-sends-nothing")
+	}
 	doc := vDocs[websocket.VerifChoose("doc", len(vDocs))]
 	v := json.RawMessage(doc)
 	err := Write(context.Background(), c, v)
@@ -38,7 +57,10 @@ func verifC19_read() {
 	d1 := vDocs[websocket.VerifChoose("doc1", len(vDocs))]
 	bad := websocket.VerifChoose("bad", 2) == 1
 	var d2 string
-	if bad {
+	if websocket.VerifParam("typed", 0) == 1 {
+		d1 = vIntDocs[websocket.VerifChoose("idoc1", len(vIntDocs))]
+		d2 = vBadIntDocs[websocket.VerifChoose("idoc2", len(vBadIntDocs))]
+	} else if bad {
 		d2 = vBadDocs[websocket.VerifChoose("doc2", len(vBadDocs))]
 	} else {
 		d2 = vDocs[websocket.VerifChoose("doc2", len(vDocs))]
@@ -50,6 +72,10 @@ func verifC19_read() {
 	msgs := []websocket.VerifMsg{{Text: true, Payload: []byte(d1), Cuts: cuts1}, {Text: websocket.VerifChoose("secondText", 2) == 1, Payload: []byte(d2)}}
 	c, out := websocket.VerifScriptedConn(client, msgs, websocket.VerifChoose("step", 2))
 	var v1, v2 json.RawMessage
+	if websocket.VerifParam("typed", 0) == 1 {
+		verifC19ReadTyped(c, out)
+		return
+	}
 	err1 := Read(context.Background(), c, &v1)
 	websocket.VerifReach("C19.read.first")
 	websocket.VerifAssert(err1 == nil, "C19.read.first-noerr")
@@ -73,4 +99,24 @@ func verifC19_read() {
 	websocket.VerifAssert(string(v1) == d1, "C19.pool.first-value-intact")
 	c.CloseNow()
 	websocket.VerifObserve("read", string(v1), string(v2), err2 == nil)
+}
+
+var vIntDocs = []string{`12`, `-7`}
+var vBadIntDocs = []string{`"x"`, `1.5`, `{"a":1}`, `[1]`, `99999999999999999999`,
+	`111111111111111111111111111111111111111111111111111111111111111111111111111111111111111111111111111111111111111111111111111111111111111111111111111111`}
+
+// typed targets: a document that is valid JSON but not valid for the target (wrong type, out of range -- the decoder's
+// error text then echoes the literal, however long) is an error and closes with 1007 like any other invalid message.
+func verifC19ReadTyped(c *websocket.Conn, out func() []byte) {
+	var n1, n2 int
+	err1 := Read(context.Background(), c, &n1)
+	websocket.VerifReach("C19.read.typed-first")
+	websocket.VerifAssert(err1 == nil && (n1 == 12 || n1 == -7), "C19.read.typed-first-value")
+	err2 := Read(context.Background(), c, &n2)
+	websocket.VerifReach("C19.read.typed-invalid")
+	websocket.VerifAssert(err2 != nil, "C19.read.invalid-is-error")
+	code, n := websocket.VerifCloseCode(out())
+	websocket.VerifAssert(n == 1 && code == 1007, "C19.read.invalid-closes-1007")
+	c.CloseNow()
+	websocket.VerifObserve("read-typed", n1, err2 == nil)
 }
